@@ -85,9 +85,17 @@ let parse_case line =
   let prog t = Stdlib.List.rev (try Hashtbl.find progs t with Not_found -> []) in
   (fv_build (Stdlib.List.rev !init), Stdlib.List.init n prog, Stdlib.List.rev !sched, n)
 
+(* model ||| spec: the number of failed compare-and-swap attempts (last token)
+   ties the model's stamps to ArcSwap's ptr_eq, but the property does not speak
+   about it: the spec side leaves it open. *)
+let open_retries obs =
+  match Stdlib.List.rev (words obs) with
+  | _ :: r -> join " " (Stdlib.List.rev ("*" :: r))
+  | [] -> obs
+
 let run_case (line : string) : string =
   let (init, progs, sched, n) = parse_case line in
   let obs fixed = observe n (full_run fixed init progs (Stdlib.List.map nat_of_int sched)) in
   let spec = obs true in
-  if code_is_fixed then spec
-  else let model = obs false in if model = spec then spec else model ^ " ||| " ^ spec
+  let model = if code_is_fixed then spec else obs false in
+  model ^ " ||| " ^ open_retries spec
